@@ -805,8 +805,9 @@ pub fn run_tlc_schedule(schedule: &[String], tag: &str, seed: u64, run_no: u64) 
         "Reset",
         json!({"run": run_no, "seed": seed, "nk": u.n(), "driver": "sched", "tag": tag}),
     );
+    let manual = schedule.iter().any(|s| s == "c1" || s == "c2" || s == "wr");
     let opts = OptSet {
-        memtable: 400,
+        memtable: if manual { 4000 } else { 400 },
         file: 600,
         block: 64,
         reuse: false,
@@ -830,19 +831,36 @@ pub fn run_tlc_schedule(schedule: &[String], tag: &str, seed: u64, run_no: u64) 
         next_vid: Mutex::new(0),
     });
     let mut status = "ok".to_string();
-    // every key has a value in a table file; keys 1 and 2 also in the active memtable, which
-    // is nearly full (the model's MemCap = 1: the next writes rotate it)
-    for k in 1..=6 {
-        env.put(k, 40);
-    }
-    let _ = db.verif_force_flush();
-    let _ = wait_quiescent(&db, Duration::from_secs(20));
-    env.put(1, 120);
-    env.put(2, 120);
-    let names = ["w1", "w2", "w3", "r1", "r2"];
-    ctl.gate(&["w1", "w2", "w3", "r1", "r2", "bg"]);
+    // cast "manual" (behaviours of RainManual_Gen): c1, c2 call compact_range, wr rotates the
+    // memtable twice; cast "conc" (RainConc_Gen): three writers and two readers
+    let names: Vec<&'static str> = if manual {
+        // two generations of every key in different files: the manual compactions are merges
+        for _round in 0..2 {
+            for k in 1..=6 {
+                env.put(k, 200);
+                if k % 2 == 0 {
+                    let _ = db.verif_force_flush();
+                }
+            }
+            let _ = wait_quiescent(&db, Duration::from_secs(20));
+        }
+        vec!["c1", "c2", "wr"]
+    } else {
+        // every key has a value in a table file; keys 1 and 2 also in the active memtable,
+        // which is nearly full (the model's MemCap = 1: the next writes rotate it)
+        for k in 1..=6 {
+            env.put(k, 40);
+        }
+        let _ = db.verif_force_flush();
+        let _ = wait_quiescent(&db, Duration::from_secs(20));
+        env.put(1, 120);
+        env.put(2, 120);
+        vec!["w1", "w2", "w3", "r1", "r2"]
+    };
+    ctl.gate(&names);
+    ctl.gate(&["bg"]);
     let mut rxs: Vec<(String, mpsc::Receiver<()>)> = vec![];
-    for name in names {
+    for name in names.clone() {
         let e2 = Arc::clone(&env);
         let c2 = ctl.clone();
         rxs.push((
@@ -850,6 +868,18 @@ pub fn run_tlc_schedule(schedule: &[String], tag: &str, seed: u64, run_no: u64) 
             spawn_named(name, move || {
                 c2.manual_point("start");
                 match name {
+                    "c1" => e2.db.compact_range(None..None),
+                    "c2" => {
+                        let lo = e2.u.key(2).clone();
+                        let hi = e2.u.key(5).clone();
+                        e2.db.compact_range(Some(lo.as_slice())..Some(hi.as_slice()));
+                    }
+                    "wr" => {
+                        e2.put(6, 5000);
+                        e2.put(1, 40);
+                        e2.put(5, 5000);
+                        e2.put(2, 40);
+                    }
                     "w1" => {
                         e2.batch(&[1, 2], 120);
                     }
@@ -867,7 +897,7 @@ pub fn run_tlc_schedule(schedule: &[String], tag: &str, seed: u64, run_no: u64) 
             }),
         ));
     }
-    for name in names {
+    for name in names.clone() {
         ctl.wait_parked(name, Duration::from_secs(5));
     }
     let done: HashMap<String, std::sync::Arc<std::sync::atomic::AtomicBool>> = names
